@@ -148,6 +148,7 @@ func c04Run(c c04Case, r *hx.Rec) error {
 	}
 	model := map[string]bool{}
 	stale := map[string]bool{}
+	spoils := 0
 	cur := c.Meta
 	var ops []string
 	signers := map[string]bool{}
@@ -203,12 +204,14 @@ func c04Run(c c04Case, r *hx.Rec) error {
 				sigs, _ := top["signatures"].([]any)
 				for _, e := range sigs {
 					if m, ok := e.(map[string]any); ok {
-						if v, _ := m["sig"].(string); len(v) > 4 {
+						if v, _ := m["sig"].(string); len(v) > 12 {
+							// another position every time, so that a second damage never undoes the first
+							at := 2 + spoils%8
 							repl := "A"
-							if v[2] == 'A' {
+							if v[at] == 'A' {
 								repl = "B"
 							}
-							m["sig"] = v[:2] + repl + v[3:]
+							m["sig"] = v[:at] + repl + v[at+1:]
 						}
 					}
 				}
@@ -216,6 +219,7 @@ func c04Run(c c04Case, r *hx.Rec) error {
 			}); err != nil {
 				return fmt.Errorf("harness: %v", err)
 			}
+			spoils++
 			l, err := intoto.LoadMetadata(p)
 			if err != nil {
 				return fmt.Errorf("step %d: LoadMetadata of an envelope with damaged signature values failed: %v", i, err)
